@@ -30,6 +30,7 @@ import pyairtouch.comms.socket as sockmod
 
 from pav import harness, refproto, sockops
 from pav.harness import Stats, Violation, drive, machine_test
+from pav.vloop import Livelock
 from pav.rig import SockRig, make_header
 
 ID = "C07"
@@ -90,8 +91,13 @@ class Interp:
     def __init__(self, gen: int) -> None:
         self.gen = gen
         self.rig = SockRig(gen)
-        self.rig.open()
         self.ops = [["gen", gen]]
+        self.broken = None
+        try:
+            self.rig.open()
+        except Livelock as exc:
+            self.broken = Violation("C07:livelock", f"opening the socket against an accepting console: the client never becomes idle: {exc}",
+                                    {"ops": self.ops})
         self.kinds: set = set()
         self.nt: set = set()
         self.raisers = 0
@@ -109,6 +115,8 @@ class Interp:
 
     # -- execution ----------------------------------------------------------------
     def do(self, op):
+        if self.broken is not None:
+            raise self.broken
         self.ops.append(op)
         if op[0] == "multi":
             self.nt.add("same-instant")
@@ -116,7 +124,12 @@ class Interp:
                 self.apply(sub)
         else:
             self.apply(op)
-        self.rig.loop.settle()
+        try:
+            self.rig.loop.settle()
+        except Livelock as exc:
+            # the client keeps itself busy for ever inside one instant (e.g. reconnecting in a tight loop): it can
+            # neither receive nor transmit again - the opposite of healing
+            self.bad("livelock", f"after {op[0]} the client never becomes idle: {exc}")
         self.invariant()
 
     def apply(self, op):
@@ -237,9 +250,14 @@ class Interp:
                                                     f"({bytes(tr.rx_log).hex()[:80]}) yet was not dropped")
 
     def finish(self):
+        if self.broken is not None:
+            raise self.broken
         net, loop, sock = self.rig.net, self.rig.loop, self.rig.sock
         net.heal()
-        loop.settle()
+        try:
+            loop.settle()
+        except Livelock as exc:
+            self.bad("livelock", f"once the network behaves the client never becomes idle: {exc}")
         self.invariant()
         t0 = loop.time()
         while not (sock.is_connected and self.cur is not None and self.cur.alive) and loop.time() - t0 < BOUND:
@@ -332,6 +350,10 @@ def make_machine(gen: int, stats: Stats):
                 self.x.do(op)
             except Violation as v:
                 self.dead = True
+                if v.key == "C07:livelock":
+                    stats.fatal = True   # each further case costs a full livelock: report and stop
+                    if stats.best is not None:
+                        stats.bail = True
                 if stats.filter(v):
                     raise
 
